@@ -354,4 +354,87 @@ Section CoreRun.
     unfold want, nonblank in Hwant. cbn [fst snd] in *. apply andb_prop in Hwant. destruct Hwant as [_ Hnb].
     destruct l; [discriminate|discriminate].
   Qed.
+
+  (** * first(): the line of the first scanned occurrence of each value *)
+  Definition first_once (nm : Z) (i : nat) (cs : list comp) : Prop :=
+    exists pre post, cs = pre ++ CAgg (First nm i) :: post /\
+      Forall (fun c => writes_comp c <> Some nm) pre /\ Forall (fun c => writes_comp c <> Some nm) post.
+
+  Definition entry_ok (o : option value) : Prop := o = None \/ exists z, o = Some (VI z).
+
+  Lemma line_first nm i cs e s l key : first_once nm i cs -> stopped mx s = false -> l <> [] -> entry_ok (dget (x mx s) nm key) ->
+    dget (x mx (fst (core_m q blanks AND cs e s l))) nm key =
+      match dget (x mx s) nm key with
+      | Some v => Some v
+      | None => if ustr_eqb (hdr_key l i) key then Some (VI (pln mx s)) else None
+      end.
+  Proof.
+    intros (pre & post & Hcs & Hpre & Hpost) Hs Hl Hok.
+    assert (Hb: (oeqb e (pln mx s) && is_nil l) = false) by (destruct l; [contradiction|apply andb_false_r]).
+    rewrite (core_line_vote q blanks AND cs e s l Hs Hb). cbn [fst]. cbv beta.
+    assert (He: forall k, dget (x mx (ensure cs s)) nm k = dget (x mx s) nm k)
+      by (intros k; unfold ensure; destruct (frozen mx s); reflexivity).
+    assert (Hp: pln mx (ensure cs s) = pln mx s) by (unfold ensure; destruct (frozen mx s); reflexivity).
+    rewrite Hcs at 1. rewrite seq_eval_app. cbn [seq_eval].
+    set (s1 := fst (seq_eval cst comp (ev l) AND pre (ensure cs s) (negb AND))).
+    assert (H1: forall k, dget (x mx s1) nm k = dget (x mx s) nm k)
+      by (intros k; unfold s1; rewrite seq_eval_frame by exact Hpre; apply He).
+    assert (Hp1: pln mx s1 = pln mx s).
+    { unfold s1. rewrite <- Hp. clear. generalize (ensure cs s) (negb AND). induction pre as [|c pre IH]; intros s0 f; [reflexivity|].
+      cbn [seq_eval]. destruct (eval_keeps q blanks AND c s0 l) as (_ & _ & _ & _ & K). destruct (eval q blanks AND c s0 l) as [s2 v]. cbn [fst] in K.
+      rewrite IH. exact K. }
+    change (eval q blanks AND (CAgg (First nm i)) s1 l) with (do_agg blanks AND s1 l (First nm i)).
+    assert (T: dget (x mx (fst (do_agg blanks AND s1 l (First nm i)))) nm key =
+               match dget (x mx s) nm key with Some v => Some v | None => if ustr_eqb (hdr_key l i) key then Some (VI (pln mx s)) else None end).
+    { cbn [do_agg]. destruct (ustr_eqb (hdr_key l i) key) eqn:Ek.
+      - apply ustr_eqb_eq in Ek. subst key. rewrite H1.
+        destruct Hok as [Hn|(z & Hz)].
+        + rewrite Hn. cbn [fst x with_mx]. rewrite dget_dset_same, Hp1. reflexivity.
+        + rewrite Hz. cbn [fst]. rewrite H1. exact Hz.
+      - assert (Hne: hdr_key l i <> key) by (intros E0; rewrite E0, ustr_eqb_refl in Ek; discriminate).
+        destruct (dget (x mx s1) nm (hdr_key l i)) as [[z'|z'|t|]|]; cbn [fst x with_mx]; rewrite ?(dget_dset_other_key _ _ _ _ _ Hne), H1;
+          destruct (dget (x mx s) nm key); reflexivity. }
+    destruct (do_agg blanks AND s1 l (First nm i)) as [s2 v] eqn:Ed. cbn [fst] in T.
+    rewrite seq_eval_frame by exact Hpost. exact T.
+  Qed.
+
+  Definition first_line (i : nat) (key : ustring) (lines : list (Z * line ustring)) : option Z :=
+    match find (fun nl => ustr_eqb (hdr_key (snd nl) i) key) lines with Some nl => Some (fst nl) | None => None end.
+
+  Lemma fold_first nm i cs e key : first_once nm i cs -> forall lines s, Forall (fun nl : Z * line ustring => snd nl <> []) lines ->
+    entry_ok (dget (x mx s) nm key) ->
+    dget (x mx (fold_left (line_step ustring mx (core_m q blanks AND cs e)) lines s)) nm key =
+      match dget (x mx s) nm key with Some v => Some v | None => option_map VI (first_line i key lines) end.
+  Proof.
+    intros Ht. induction lines as [|[n l] lines IH]; intros s Hnb Hok; [cbn; destruct (dget (x mx s) nm key); reflexivity|].
+    inversion Hnb as [|nl0 r0 Hl Hr]; subst. cbn [snd] in Hl. cbn [fold_left].
+    assert (Hx: dget (x mx (line_step ustring mx (core_m q blanks AND cs e) s (n, l))) nm key =
+                match dget (x mx s) nm key with Some v => Some v | None => if ustr_eqb (hdr_key l i) key then Some (VI n) else None end).
+    { unfold line_step. cbn [fst snd].
+      set (s1 := mkRs mx n (scan_count mx s + 1) (match_count mx s) (match_count mx s) 0 false false (x mx s)).
+      pose proof (line_first nm i cs e s1 l key Ht eq_refl Hl Hok) as H. cbn [x pln] in H.
+      destruct (core_m q blanks AND cs e s1 l) as [s2 v]. cbn [fst] in H.
+      destruct v; [unfold raise_match_count_if; destruct (_ =? _); cbn [x]; exact H|exact H]. }
+    rewrite IH; [|exact Hr|].
+    - rewrite Hx. unfold first_line. cbn [find snd fst].
+      destruct (dget (x mx s) nm key) as [v|]; [reflexivity|]. destruct (ustr_eqb (hdr_key l i) key); reflexivity.
+    - rewrite Hx. destruct Hok as [Hn|(z & Hz)]; [rewrite Hn|rewrite Hz; right; eexists; reflexivity].
+      destruct (ustr_eqb (hdr_key l i) key); [right; eexists; reflexivity|left; reflexivity].
+  Qed.
+
+  (** first.nm(#i) once at top level, nothing else naming its dictionary: after ANY run the entry of a value is the
+      line number of the first scanned line holding it, and values never scanned have no entry *)
+  Theorem first_records_first_scanned sh (c : cfg) E cs (recs : list (line ustring)) nm i key :
+    wf sh -> parse false (ast_of sh) = Some (scanner c) -> q_scan c = false -> end_line c = Some E ->
+    end_of ustring recs = Some E -> will_run c = true -> first_once nm i cs ->
+    dget (x mx (st ustring mx (run_from ustring mx (core_m q blanks AND cs (Some E)) c (rs0 mx (mkMx [] [] [])) None recs))) nm key =
+    option_map VI (first_line i key (filter (want ustring sh) (number 0 recs))).
+  Proof.
+    intros Hwf Hp Hq He Hend Hw Ht.
+    pose proof (core_run_is_fold sh c E cs recs (mkMx [] [] []) Hwf Hp Hq He Hend Hw) as H. unfold core in H. injection H as Hx _ _.
+    rewrite Hx. rewrite (fold_first nm i cs (Some E) key Ht); [reflexivity| |left; reflexivity].
+    apply Forall_forall. intros [n l] Hin. apply filter_In in Hin. destruct Hin as [_ Hwant].
+    unfold want, nonblank in Hwant. cbn [fst snd] in *. apply andb_prop in Hwant. destruct Hwant as [_ Hnb].
+    destruct l; [discriminate|discriminate].
+  Qed.
 End CoreRun.
